@@ -27,12 +27,14 @@ static const profile_t PROFILES[] = {
       (1u << A_STASH) | (1u << A_UNSTASH), (1u << CB_EVT), (1u << P_T), (1u << T_T), (1u << K_FD), 1 },
     { "C17", 2, G_MSG | G_BECOME | G_ARM | G_LIFE | G_STASH,                                 RL_BASE | R_PS | R_HD | R_SH,       2, "01000100" "07000100" "07010100" "04000000", 1, 0, 1,
       (1u << A_BECOME) | (1u << A_UNBECOME) | (1u << A_STASH), (1u << CB_EVT), 0, 0 },
-    { "C19", 2, G_REG | G_LIFE | G_SUB | G_QUIT | G_TICK | G_ENV | G_PILL,                   RL_BASE | R_PS | R_SY | R_EV,       0, "01000100", 1 | 4, 1, 1,
-      0, 0, (1u << P_CTX_STARTED) | (1u << P_CTX_STOPPED) | (1u << P_CTX_TICK) | (1u << P_MOD_STARTED) | (1u << P_MOD_STOPPED), 0 },
+    { "C19", 2, G_REG | G_LIFE | G_SUB | G_QUIT | G_TICK | G_ENV | G_PILL | G_ARM,           RL_BASE | R_PS | R_SY | R_EV,       1, "01000100", 1 | 4, 1, 1,
+      (1u << A_DEREG) | (1u << A_STOP) | (1u << A_PAUSE), (1u << CB_START) | (1u << CB_STOP) | (1u << CB_EVT), (1u << P_CTX_STARTED) | (1u << P_CTX_STOPPED) | (1u << P_CTX_TICK) | (1u << P_MOD_STARTED) | (1u << P_MOD_STOPPED), 0 },
     { "C09", 1, G_SRC | G_SUB | G_LIFE | G_ILLEGAL | G_BADPARAM,                             RL_BASE | R_SR,                     0, "01000100" "07000100", 1, 0, 1,
       0, 0, (1u << P_T) | (1u << P_U) | (1u << P_RT), 0, 0x7f, 1 },
     { "C03", 2, G_SRC | G_READY | G_ENV | G_MSG | G_LIFE | G_QUIT | G_ARM | G_EPOLLFAULT | G_SUB, RL_BASE | R_PS | R_SR | R_LP | R_EV,  1, "01000100" "07000100" "07010100" "04000000", 1, 0, 1,
       (1u << A_ERRNO) | (1u << A_STOP) | (1u << A_PAUSE) | (1u << A_QUIT), (1u << CB_EVT), (1u << P_T), (1u << T_T), (1u << K_FD) | (1u << K_TMR), 1 | 4 },
+    { "C03E", 2, G_SRC | G_ENVX | G_LIFE | G_QUIT | G_MSG,                                     RL_BASE | R_PS | R_SR | R_LP | R_EV, 0, "01000100" "07000100" "07010100" "04000000", 1, 0, 1,
+      0, 0, 0, 0, (1u << K_SGN) | (1u << K_PATH) | (1u << K_PID), 1 | 4, 2 },
     { "C13", 1, G_MSG | G_SUB | G_PRIO | G_BATCH | G_ENV | G_LIFE | G_SRC | G_READY,         RL_BASE | R_PS | R_FIFO | R_BA,     0, "01000100" "07000100" "07010100" "04000000", 1, 0, 1,
       0, 0, (1u << P_T) | (1u << P_U), (1u << T_T) | (1u << T_U), (1u << K_FD), 1 },
     { "C18", 2, G_MSG | G_SUB | G_BUCKET | G_ENV | G_BECOME | G_PILL | G_SRC,                RL_BASE | R_PS | R_TB | R_SR,       0, "01000100" "07000100" "07010100" "04000000", 1, 0, 1,
@@ -81,7 +83,17 @@ static void apply_top(op_t op) {
  * A violation ends the executor (vfail -> V line, _exit).  The executor is only reused after an execution that
  * ended with both ledgers clean (no outstanding allocation, no library descriptor), which is exactly the condition
  * under which the library holds no residual state; every reported violation is re-confirmed in a fresh process. */
+static void env_cleanup(void) {
+    sigset_t ss; sigemptyset(&ss); for (int i = 0; i < 3; i++) sigaddset(&ss, ENV_SIGS[i]);
+    struct timespec z = { 0, 0 }; while (sigtimedwait(&ss, NULL, &z) > 0) { }
+    for (int k = 0; k < 2; k++) {
+        for (int i = 0; i < touch_ctr[k]; i++) { char f[96]; snprintf(f, sizeof f, "%s/f%d", PATHS[k], i); unlink(f); }
+        touch_ctr[k] = 0;
+        if (child_dead[k]) { waitpid(CHILD[k], NULL, 0); CHILD[k] = fork(); if (CHILD[k] == 0) { prctl(PR_SET_PDEATHSIG, SIGKILL); for (;;) pause(); } child_dead[k] = 0; }
+    }
+}
 static void world_cleanup(void) {
+    if (P.groups & G_ENVX) env_cleanup();
     for (int i = 0; i < NUFD; i++) { if (UFD[i].open_rd && UFD[i].rd >= 0) __real_close(UFD[i].rd); if (UFD[i].wr >= 0) __real_close(UFD[i].wr); UFD[i].rd = UFD[i].wr = -1; }
     lg_free_hook = NULL;
 }
@@ -189,8 +201,10 @@ int main(int argc, char **argv) {
     }
     RULES = P.rules | R_FD; adv_drains = (P.groups & G_BATCH) != 0;
     snprintf(cfg_str, sizeof cfg_str, "world prop=%s modules=%d maxdev=%d", P.prop, P.nmods, P.maxdev);
+    pick_names();
     model_reset();            /* computes the pattern/topic match table once, before any fork */
-    if (P.kinds & ((1u << K_PATH) | (1u << K_PID))) {      /* real directories and real child processes as path / pid keys */
+    if (P.kinds & ((1u << K_PATH) | (1u << K_PID) | (1u << K_SGN))) {
+        { sigset_t ss; sigemptyset(&ss); for (int i = 0; i < 3; i++) sigaddset(&ss, ENV_SIGS[i]); sigprocmask(SIG_BLOCK, &ss, NULL); }      /* watched signals stay blocked in the executor, as the library leaves them */      /* real directories and real child processes as path / pid keys */
         char base[48]; snprintf(base, sizeof base, "/tmp/vworld.%d", (int)getpid()); mkdir(base, 0700);
         for (int i = 0; i < 2; i++) { snprintf(PATHS[i], sizeof PATHS[i], "%s/d%d", base, i); mkdir(PATHS[i], 0700); }
         for (int i = 0; i < 2; i++) { CHILD[i] = fork(); if (CHILD[i] == 0) { prctl(PR_SET_PDEATHSIG, SIGKILL); for (;;) pause(); } }
